@@ -140,7 +140,8 @@ static std::string do_dropout(const std::vector<std::string> &t, bool mk) {
     // the draws of the bernoulli request dropout would make (p = 1. - rate, narrowed to float)
     std::mt19937 ref(seed); Req r; r.kind = 'b'; r.a = static_cast<float>(1. - rate); r.n = x.size();
     std::string line = "dropout " + t[1] + " " + t[2] + " " + t[3] + " " + t[4] + " " + t[5] + " " + xs;
-    if (r.a >= 0 && r.a <= 1) line += "=" + ords(ref_draw(ref, r));
+    // dropout draws iff enabled, rate != 1 and the bernoulli front end does not reject p
+    if (en && !(rate == 1.) && (r.a >= 0 && r.a <= 1)) line += "=" + ords(ref_draw(ref, r));
     return line;
   }
   auto dev = mkdev(t.at(1), seed);
@@ -285,7 +286,8 @@ static std::string do_stat(const std::vector<std::string> &t) {
   auto dev = mkdev(t.at(1), u32(t.at(2)));
   const std::string &w = t.at(3);
   float a = f_of(t.at(4)), b = f_of(t.at(5)); std::uint32_t n = u32(t.at(6));
-  Shape s({n});
+  const bool is_init = (w == "xu" || w == "xn" || w == "xuc" || w == "xnc");
+  Shape s = is_init ? Shape() : Shape({n});
   std::vector<double> u(n), x(n);
   if (w == "bernoulli") {
     auto v = dev->random_bernoulli(s, a).to_vector(); size_t k = 0, bad = 0, runs = 1;
